@@ -2,16 +2,21 @@ import runpy, os
 REGP_LIB = runpy.run_path(os.path.join(os.path.dirname(os.path.abspath(__file__)), "C08.py"))["REGP_LIB"]
 CHECK = {
     "level": "model_checking",
-    "technique": "stateless bounded-exhaustive enumeration of requests (reference-encoded) through the real regp_recv/regp_process/regp_free with a recording scripted memory backend; replies decoded by an independent decoder; session pairs compared against fresh-instance runs (differential, one level closes the search because the server keeps no per-request state)",
-    "rule": "a case is one request (or one ordered pair of frames on one session): exactly one backend call with the request's fields and payload (none for reads that cannot fit), exactly one well-formed reply of the prescribed type/code/payload, balanced allocator ledger; every case is non-trivial",
+    "technique": "stateless bounded-exhaustive enumeration of requests (reference-encoded, under every combination of the two checksum option bits) through the real regp_recv/regp_process/regp_free with a recording scripted memory backend; replies decoded by an independent decoder; sessions of the serving loop that regp_recv's documentation prescribes (one RPMaybeFrame, regp_process and regp_free after every regp_recv) enumerated as all sequences of 2..3 (thorough 4) receptions out of good requests, non-requests, corrupted frames and channel-level failures, with three RPMaybeFrame disciplines and heap/pool allocators, every received frame compared against a fresh-instance run (differential); frames invalid by an independent reading of doc/regp.txt (block sizes straddling 2^7..2^32) and scripted sink failures at every reply octet",
+    "rule": "a case is one request (or one session, or one group of invalid frames of one block size): exactly one backend call with the request's fields and payload (none for reads that cannot fit), exactly one well-formed reply of the prescribed type/code/payload, balanced allocator ledger; no backend call in a round whose reception failed (corrupted frame or channel-level failure); every case is non-trivial except family-G cases whose sink failure offset lies behind the reply and family-F groups without an invalid frame",
     "assumptions": ["a read whose data fits the 160-octet allocator block behind the request's own header but not together with a full 16-octet response header may be served or answered with a transmit-overflow response without access (statement C09: 'a read whose answer cannot fit'); a read that does not fit behind the request's header must be refused that way",
                     "the 'buffer size' carried by overflow responses is accepted as block size, block size minus the frame descriptor, or that minus the request's header",
                     "response frames fed as input carry the payload doc/regp.txt 3.1 prescribes for their code (a receiver may reject others; the statement only demands no access and no reply)",
                     "the return values of regp_recv/regp_process are not compared; only an acknowledged request must not make regp_process report failure",
-                    "addresses/sequence numbers/payload contents from the closed sets in the harness"],
+                    "addresses/sequence numbers/payload contents from the closed sets in the harness",
+                    "the caller follows the loop in regp_recv's documentation: the RPMaybeFrame object is not initialised before the first call (modelled by a stand-in that designates a never-received write request) and is handed to regp_process and regp_free also when regp_recv returned a negative value",
+                    "a request whose checksum option bits are not the ones doc/regp.txt 5.1/5.2 mandates for the transport (or that declares a payload checksum without payload) may be refused by reception (then: no access) or accepted (then: the full exchange is owed, with the read capacity counted from the received header)",
+                    "'failed reception' for generated frames is decided by the reference reading of doc/regp.txt (regp_ref.h); frames valid under any admissible reading are not generated in family F",
+                    "sink failures are persistent hard errors (-EIO, -ENOMEM, -EPIPE) at one octet offset of the reply; -EAGAIN/-EINTR are retried by the endpoint layer by contract and are not generated; when the reply cannot be sent only the memory access, the ledger and the next exchange are judged"],
     "harnesses": [{
         "name": "c06_process", "src": "harness/c06_process.c", "shape": "espace", "opt": "-O1",
         "lib": REGP_LIB, "min_outcomes": 6,
-        "require_outcomes": {"any": ["read-acked", "write-acked", "error-response", "wordsize-mismatch", "non-request-ignored", "session-pair", "read-too-large-refused"]},
+        "require_outcomes": {"any": ["read-acked", "write-acked", "error-response", "wordsize-mismatch", "non-request-ignored", "session-pair", "read-too-large-refused",
+                                     "invalid-frame-no-access", "session-all-received", "session-with-failed-reception", "reply-unsendable"]},
     }],
 }
